@@ -483,3 +483,6 @@ if bad: reproduced(str(bad))
 not_reproduced()
 """
     return None
+
+# level text addendum (cases added after the seeded-change rounds)
+LEVEL_TEXT = LEVEL_TEXT + ' Also: retry after an interrupted in-place decompression, interruptions that are not Exceptions, an earlier compressed copy whose header must survive a failed re-compression, an explicit output path, the Reader object re-opened after being decompressed in place.'
